@@ -50,3 +50,11 @@ chk("C18", "exploration",
     "Exhaustive product lattice (about 60 000 configurations) over interfaces x workers x moves length/pattern x interface_cap x ensemble_engines x lambda_-1 x quantis through the real setup_config/check_config against a validity predicate written from the property sentence (invalid => TOMLConfigError, never another exception); every accepted configuration is initialised through the real setup_internal with lattice paths, the initial picks and one completed step per worker, and the restart file it wrote must be a fixed point of setup_config.",
     "Trusted: the validity predicate; only 'invalid => rejected' and 'accepted => initialises' are demanded (rejecting more is allowed).",
     "exhaustive configuration enumeration against a reference predicate", "DESIGN.md 4/C18")
+chk("C06", "fault_enumeration",
+    "Whole-program runs (real setup_config -> scheduler -> run_md, lattice plug-in engine and the repository's TurtleMD double well) through an inline runner: straight runs of every length 1..N, EVERY restart pair k<k' compared with the straight run of k' steps (data file bytes, restart.toml minus restarted_from, order files of live paths) for seeds {0,1,12345,+1} and sh/wf/cap configurations, repeat runs, runs in separate processes under three PYTHONHASHSEEDs; multi-worker: every (stop point, completion order) -> the restart file records exactly the in-flight jobs and they are re-issued first.",
+    "Trusted: inline runner stands for the process pool; allowmaxlength=true; older load/ directories and traj.txt file names (pid, counter) are not compared.",
+    "exhaustive enumeration of restart split points and completion orders on the real program", "DESIGN.md 4/C06")
+chk("C17", "model_checking",
+    "(a) the real scheduler() with the lattice engine: all (workers 1..3, steps >= workers) x every completion order, then every (stop point, new step count) restart x every completion order: moves completed, cstep, locked, futures consumed exactly once, runner stopped once; (b) [when built] the real aiorunner on a virtual event loop.",
+    "Trusted: inline runner in part (a).",
+    "exhaustive schedule enumeration on the implementation", "DESIGN.md 4/C17")
